@@ -210,7 +210,7 @@ def run_check(pid, tier, replay=None):
         for f in known:
             print('KNOWN-FINDING: property=%s %s' % (pid, match_known(f, findings, pid).get('what', '')[:200]))
         fresh = [f for f in ctx.failures if not match_known(f, findings, pid)]
-        if not ok and not fresh and (payload['failure'].get('signature') != (known[0].get('signature') if known else None)):
+        if not ok and known and not fresh and payload['failure'].get('signature') != known[0].get('signature'):
             # what fails now on this input is only the known finding - not what the replay file recorded
             ok = True
         print('replay %s: %s' % (replay, 'property holds on this input now' if ok else 'STILL FAILS'))
